@@ -68,11 +68,17 @@ impl ExecutionFrontier {
     ///
     /// Readers participate in lock-free progress by advancing a ready frontier if needed.
     fn current(&self) -> usize {
+        #[cfg(feature = "verif-hooks")]
+        crate::verif::rt::pt("frontier_cur_load");
         let frontier = self.frontier.load(Ordering::Acquire);
+        #[cfg(feature = "verif-hooks")]
+        crate::verif::rt::pt1("frontier_cur_check", frontier);
         // Lock-free helpers may observe a completion whose publishing worker has not advanced the
         // frontier yet. Help it here so a delayed publisher cannot stall validation progress.
         if frontier < self.executed.len() && self.executed[frontier].load(Ordering::Acquire) {
             self.advance(frontier);
+            #[cfg(feature = "verif-hooks")]
+            crate::verif::rt::pt("frontier_cur_reload");
             return self.frontier.load(Ordering::Acquire);
         }
         frontier
